@@ -77,7 +77,13 @@ Definition state : Type := (slots * bool)%type.
 (* ops 20..25 are ops 0..5 on FrequentItemsSketch<String> (harness/src/freq.rs): the model keys a
    String item by the id the generator gave it and gets the hash of its bytes + 0xff; the argument
    positions are those of the i64 ops (the item's bytes follow and are ignored here) *)
-Definition norm_code (code : Z) : Z := if (20 <=? code) && (code <=? 25) then code - 20 else code.
+(* ops 40..52 are ops 0..12 on FrequentItemsSketch<u64>: an item crosses the case format as the i64 with the
+   same bits (same hash, same image bytes), so the i64 model answers them.  Ops 31..34 (String images) have no
+   model counterpart: the legs that use them leave them out of the comparison (mask) and judge the crate's
+   observations with [prop_generic]. *)
+Definition norm_code (code : Z) : Z :=
+  if (20 <=? code) && (code <=? 25) then code - 20
+  else if (40 <=? code) && (code <=? 52) then code - 40 else code.
 
 Definition step (st0 : state) (o : zop) : state * list Z :=
   let '(st, good) := st0 in
@@ -423,7 +429,9 @@ Fixpoint layout_from (st : ostate) (ops : list zop) (obs : list (list Z)) : bool
         | 6, Some s => image_ok s ob
         | 3, Some s => (* C18: never more active items than maximum_map_capacity = 3/4 of the map size *)
                        let act := zN (nth 2 ob 0) in let mcap := zN (nth 7 ob 0) in
-                       Nat.eqb (length ob) 8 && ((act <=? 3 * o_size s / 4) && (mcap =? 3 * o_size s / 4))%N
+                       let lgc := zN (nth 4 ob 0) in let ccap := zN (nth 5 ob 0) in let lgm := zN (nth 6 ob 0) in
+                       Nat.eqb (length ob) 8 && ((act <=? 3 * o_size s / 4) && (mcap =? 3 * o_size s / 4)
+                                                 && (lgm =? N.log2 (o_size s)) && (3 <=? lgc) && (lgc <=? lgm) && (ccap <=? mcap))%N
         | _, Some s => negb (is_obs ob EMPTY)
         | _, None => true
         end in
@@ -528,6 +536,20 @@ Fixpoint foreign_from (st : fstate) (ops : list zop) (obs : list (list Z)) : boo
   end.
 Definition prop_foreign (c : case) : bool := foreign_from (repeat None 8) (c_ops c) (c_obs c).
 
+(* ---- String images (crate-only): a round trip must reproduce every accessor, row and the image's pairs
+   (op 33 observes [1]); an accepted image must be usable (op 34 observes [1]); parsing observes [1] or ERR ---- *)
+Fixpoint generic_from (ops : list zop) (obs : list (list Z)) : bool :=
+  match ops, obs with
+  | [], [] => true
+  | (code, _) :: r, ob :: obr =>
+      (if (code =? 33) || (code =? 34) then is_obs ob [1] || is_obs ob EMPTY
+       else if code =? 32 then is_obs ob [1] || is_obs ob ERR
+       else negb (is_obs ob PANIC))
+      && generic_from r obr
+  | _, _ => false
+  end.
+Definition prop_generic (c : case) : bool := generic_from (c_ops c) (c_obs c).
+
 (* oracles by number (tools/families/freq.py: ORACLES) *)
 Definition oracles : list (Z * (case -> bool)) :=
-  [(0, prop_ok); (1, prop_roundtrip); (2, prop_layout); (3, no_panic); (4, prop_foreign)].
+  [(0, prop_ok); (1, prop_roundtrip); (2, prop_layout); (3, no_panic); (4, prop_foreign); (5, prop_generic)].
